@@ -11,6 +11,8 @@ Grammar of the helpers (recognised by their bodies, names are free):
   keyword dispatch      def D(**info): [if info is None: return None]  T = {"k": Class, ...}  [key = info["kind"]]  c = T.get(info["kind"] | key)
                                   if c / c is not None: return c(**info) [else:] raise ..   |   if not c / c is None: raise .. ; return c(**info)
   positional dispatch   def D(info): if info["kind"] == "k": return C(**info) ... ; return Default(**info)
+create_lsp_model and the __eq__ methods are normalised first (see "constant tables, unrolled" below, with the soundness argument):
+  NAME = ("a", ...) at module level, bound once  ->  `for x in NAME` unrolled, all(E for x in NAME) -> and-chain, getattr(o, "a") -> o.a
 A `converter=` that is none of: P(target), L(target), lambda x: C(**x), the uuid lambda, a positional dispatch function - is rejected
 (a new converter function would change what loading does; the search streams of the check then look for the input).
 Fail-closed: anything outside the grammar aborts (exit 3, "REJECT: why").  The AST is cross-checked against the imported
@@ -49,6 +51,218 @@ def is_call_starstar(e, arg):
             and is_name(e.keywords[0].value, arg)):
         return e.func.id
     return None
+
+
+# ------------------------------------------------------------------------------------------------ constant tables, unrolled
+# Grammar extension (create_lsp_model and the __eq__ methods are NORMALISED before the grammar above is applied):
+#   NAME = ("a", "b", ...)  |  ["a", "b", ...]      at module level, string literals only                      (a constant table)
+#   for x in NAME: <body>                  ->  <body>[x := "a"] ; <body>[x := "b"] ; ...
+#   all(E for x in NAME)                   ->  E[x := "a"] and E[x := "b"] and ...        (True when NAME is empty)
+#   tuple(E for x in NAME), [E for x in NAME]  ->  (E[x := "a"], ...), [E[x := "a"], ...]
+#   getattr(o, "ident")                    ->  o.ident
+# Soundness (each rewrite yields a function with the same behaviour - the same attribute reads, comparisons and calls in the same
+# order, the same exceptions, results equal up to bool() where the grammar downstream only admits `==` comparisons, which are bools):
+#  * NAME denotes that literal whenever the function runs: it is bound EXACTLY ONCE in the whole module (every binding construct
+#    is counted: assignment, del, augmented assignment, for/with/except/import targets, def/class names, parameters, comprehension
+#    targets, global/nonlocal, match captures; a star-import disables the extension), so no function can shadow or re-bind it;
+#    a tuple of strings is immutable; a list is accepted only if EVERY read of NAME in the module is the iterable of a for /
+#    comprehension (it is never passed on, so nothing can mutate it).  Re-binding from outside the module is covered like every
+#    other fact read from the AST: crosscheck() compares the imported module's value of NAME with the literal.
+#  * `for x in NAME` evaluates NAME once and runs the body once per element, in order, with x bound to it: the unrolled copies
+#    do the same provided the body does not bind x, has no break/continue and the loop no else, x is not read under a
+#    lambda / def / class / generator expression (late binding), and x is not used outside the loop (after the loop it would
+#    still hold the last element).  Anything else is left alone and then REJECTED by the grammar downstream.
+#  * `all(g)` consumes the generator at once, in order, stopping at the first falsy element: that is the short-circuit `and` of
+#    the instances (E must not contain a lambda / generator / walrus / yield / await, and must not bind x).  A LIST comprehension
+#    inside all(...) evaluates every element before testing any: it becomes all([..]), which the __eq__ grammar rejects.
+#  * getattr(o, "ident") with two arguments and a literal identifier IS o.ident (same lookup, same AttributeError), except for
+#    the name-mangled `__private` spelling, which is not rewritten.  getattr / all / tuple must not be bound anywhere in the
+#    module (checked on the AST, and on the imported module by crosscheck()).
+LAZY = (ast.Lambda, ast.FunctionDef, ast.AsyncFunctionDef, ast.ClassDef, ast.GeneratorExp)
+
+
+def bound_names(node):
+    """every identifier bound by some construct under `node`, with multiplicity"""
+    out = []
+    for n in ast.walk(node):
+        if isinstance(n, ast.Name) and isinstance(n.ctx, (ast.Store, ast.Del)):
+            out.append(n.id)
+        elif isinstance(n, ast.arg):
+            out.append(n.arg)
+        elif isinstance(n, ast.alias):
+            out.append((n.asname or n.name).split(".")[0])
+        elif isinstance(n, (ast.FunctionDef, ast.AsyncFunctionDef, ast.ClassDef)):
+            out.append(n.name)
+        elif isinstance(n, ast.ExceptHandler) and n.name:
+            out.append(n.name)
+        elif isinstance(n, (ast.Global, ast.Nonlocal)):
+            out += n.names
+        elif isinstance(n, (ast.MatchAs, ast.MatchStar)) and n.name:
+            out.append(n.name)
+        elif isinstance(n, ast.MatchMapping) and n.rest:
+            out.append(n.rest)
+    return out
+
+
+def module_constants(tree):
+    """-> ({NAME: ("tuple" | "list", [str, ...])}, all bound names of the module)"""
+    allb = bound_names(tree)
+    if "*" in allb:
+        return {}, allb
+    iter_nodes = set()
+    for n in ast.walk(tree):
+        if isinstance(n, (ast.For, ast.AsyncFor, ast.comprehension)):
+            iter_nodes.add(id(n.iter))
+    consts = {}
+    for n in tree.body:
+        if isinstance(n, ast.Assign) and len(n.targets) == 1:
+            tgt, val = n.targets[0], n.value
+        elif isinstance(n, ast.AnnAssign) and n.value is not None:
+            tgt, val = n.target, n.value
+        else:
+            continue
+        if not (is_name(tgt) and isinstance(val, (ast.Tuple, ast.List)) and all(isinstance(x, ast.Constant) and isinstance(x.value, str) for x in val.elts)):
+            continue
+        if allb.count(tgt.id) != 1:
+            continue
+        if isinstance(val, ast.List):
+            reads = [x for x in ast.walk(tree) if isinstance(x, ast.Name) and x.id == tgt.id and isinstance(x.ctx, ast.Load)]
+            if not all(id(x) in iter_nodes for x in reads):
+                continue
+        consts[tgt.id] = ("tuple" if isinstance(val, ast.Tuple) else "list", [x.value for x in val.elts])
+    return consts, allb
+
+
+class _SubstConst(ast.NodeTransformer):
+    def __init__(self, name, value):
+        self.name, self.value = name, value
+
+    def visit_Name(self, node):
+        if node.id == self.name and isinstance(node.ctx, ast.Load):
+            return ast.copy_location(ast.Constant(value=self.value), node)
+        return node
+
+
+def _reads(nodes, x):
+    return sum(1 for st in nodes for n in ast.walk(st) if isinstance(n, ast.Name) and n.id == x)
+
+
+def _escapes(fn, x):
+    """x occurs in fn somewhere else than as the target / in the body of a `for x in ..` or inside a comprehension binding x"""
+    covered = set()
+    for n in ast.walk(fn):
+        if isinstance(n, ast.For) and is_name(n.target, x):
+            covered.add(id(n.target))
+            covered |= {id(m) for st in n.body for m in ast.walk(st)}
+        elif isinstance(n, (ast.ListComp, ast.SetComp, ast.GeneratorExp, ast.DictComp)) and any(is_name(g.target, x) for g in n.generators):
+            first = {id(m) for m in ast.walk(n.generators[0].iter)}       # evaluated in the enclosing scope
+            covered |= {id(m) for m in ast.walk(n)} - first
+    return any(isinstance(n, ast.Name) and n.id == x and id(n) not in covered for n in ast.walk(fn))
+
+
+def _lazy_read(nodes, x):
+    return any(isinstance(n, LAZY) and _reads([n], x) for st in nodes for n in ast.walk(st))
+
+
+class Normalise(ast.NodeTransformer):
+    """the rewrites listed above, applied to one function; records which constants / builtins it relied on"""
+
+    def __init__(self, fn, consts, allb, used):
+        self.fn, self.consts, self.allb, self.used = fn, consts, allb, used
+
+    def builtin(self, name):
+        if name in self.allb:
+            return False
+        self.used["builtins"].add(name)
+        return True
+
+    def instances(self, nodes, x, cname):
+        import copy as _copy
+        self.used["constants"].add(cname)
+        out = []
+        for c in self.consts[cname][1]:
+            out.append([_SubstConst(x, c).visit(_copy.deepcopy(n)) for n in nodes])
+        return out
+
+    def visit_For(self, node):
+        if not (is_name(node.iter) and node.iter.id in self.consts):
+            return self.generic_visit(node)
+        why = None
+        if node.orelse or not is_name(node.target):
+            why = "else clause / target is not a name"
+        else:
+            x = node.target.id
+            if any(isinstance(n, (ast.Break, ast.Continue)) for st in node.body for n in ast.walk(st)):
+                why = "break / continue"
+            elif x in [b for st in node.body for b in bound_names(st)]:
+                why = "the body binds the loop variable"
+            elif _lazy_read(node.body, x):
+                why = "the loop variable is read under a lambda / def / generator expression"
+            elif _escapes(self.fn, x) or x in [a.arg for a in ast.walk(self.fn.args) if isinstance(a, ast.arg)]:
+                why = "the loop variable is used outside the loops / comprehensions that bind it"
+        if why:
+            raise Reject("%s: loop over the constant %s cannot be unrolled (%s): %s" % (self.fn.name, node.iter.id, why, U(node)[:80]))
+        out = []
+        for inst in self.instances(node.body, x, node.iter.id):
+            for st in inst:
+                r = self.visit(st)
+                out += r if isinstance(r, list) else [r]
+        return out or [ast.copy_location(ast.Pass(), node)]
+
+    def comp_instances(self, comp):
+        """[elt instances] for a generator expression / list comprehension over a constant table, or None"""
+        if not (len(comp.generators) == 1 and not comp.generators[0].ifs and not comp.generators[0].is_async and is_name(comp.generators[0].target)
+                and is_name(comp.generators[0].iter) and comp.generators[0].iter.id in self.consts):
+            return None
+        x, elt = comp.generators[0].target.id, comp.elt
+        if (any(isinstance(n, LAZY + (ast.NamedExpr, ast.Yield, ast.YieldFrom, ast.Await)) for n in ast.walk(elt)) or x in bound_names(elt)
+                or x in self.consts):
+            return None
+        return [self.visit(i[0]) for i in self.instances([elt], x, comp.generators[0].iter.id)]
+
+    def visit_ListComp(self, node):
+        vals = self.comp_instances(node)
+        if vals is None:
+            return self.generic_visit(node)
+        return ast.copy_location(ast.List(elts=vals, ctx=ast.Load()), node)
+
+    def visit_Call(self, node):
+        if is_name(node.func) and node.func.id in ("all", "tuple") and len(node.args) == 1 and not node.keywords and isinstance(node.args[0], ast.GeneratorExp):
+            vals = self.comp_instances(node.args[0]) if node.func.id not in self.allb else None
+            if vals is not None and self.builtin(node.func.id):
+                if node.func.id == "tuple":
+                    return ast.copy_location(ast.Tuple(elts=vals, ctx=ast.Load()), node)
+                if not vals:
+                    return ast.copy_location(ast.Constant(value=True), node)
+                return vals[0] if len(vals) == 1 else ast.copy_location(ast.BoolOp(op=ast.And(), values=vals), node)
+        node = self.generic_visit(node)
+        if (is_name(node.func, "getattr") and len(node.args) == 2 and not node.keywords and isinstance(node.args[1], ast.Constant)
+                and isinstance(node.args[1].value, str) and node.args[1].value.isidentifier() and not node.args[1].value.startswith("__")
+                and not __import__("keyword").iskeyword(node.args[1].value) and self.builtin("getattr")):
+            return ast.copy_location(ast.Attribute(value=node.args[0], attr=node.args[1].value, ctx=ast.Load()), node)
+        return node
+
+
+def normalise(fn, consts, allb, used):
+    """the function with loops over constant tables unrolled and constant getattr calls turned into attribute reads"""
+    import copy as _copy
+    if not any(isinstance(n, ast.Name) and (n.id in consts or n.id == "getattr") for n in ast.walk(fn)):
+        return fn
+    new = _copy.deepcopy(fn)
+    nz = Normalise(new, consts, allb, used)
+    body = []
+    for st in new.body:
+        r = nz.visit(st)
+        body += r if isinstance(r, list) else [r]
+    new.body = body
+    return ast.fix_missing_locations(new)
+
+
+def flatten_and(e):
+    """(a and b) and c  ==  a and b and c  (same evaluation order, same value)"""
+    if isinstance(e, ast.BoolOp) and isinstance(e.op, ast.And):
+        return [y for x in e.values for y in flatten_and(x)]
+    return [e]
 
 
 def match_apply(fn, outer_arg):
@@ -386,10 +600,7 @@ def eq_method(fn, cname):
         if not (isinstance(c, ast.Compare) and len(c.ops) == 1 and isinstance(c.ops[0], ast.Eq)):
             raise Reject("%s.__eq__: conjunct outside grammar: %s" % (cname, U(c)))
         return c.left, c.comparators[0]
-    if isinstance(expr, ast.BoolOp) and isinstance(expr.op, ast.And):
-        conj = expr.values
-    else:
-        conj = [expr]
+    conj = flatten_and(expr)
     form, attrs = "EConj", []
     if len(conj) == 1 and isinstance(conj[0], ast.Compare) and isinstance(conj[0].left, ast.Tuple):
         le, ri = pair(conj[0])
@@ -466,10 +677,12 @@ def translate():
     if len(set(classes)) != len(classes):
         raise Reject("a class is defined twice")
     funs, create = {}, None
+    consts, allb = module_constants(tree)
+    used = {"constants": set(), "builtins": set()}
     for n in tree.body:
         if isinstance(n, ast.FunctionDef):
             if n.name == "create_lsp_model":
-                create = create_fn(n, classes)
+                create = create_fn(normalise(n, consts, allb, used), classes)
             else:
                 funs[n.name] = classify_function(n, classes, funs)
         elif isinstance(n, ast.ClassDef) or isinstance(n, (ast.Import, ast.ImportFrom)):
@@ -498,7 +711,7 @@ def translate():
         for st in strip_doc(n.body):
             if isinstance(st, ast.FunctionDef):
                 if st.name == "__eq__":
-                    eq = eq_method(st, n.name)
+                    eq = eq_method(normalise(st, consts, allb, used), n.name)
                 elif st.name.startswith("__") and st.name.endswith("__"):
                     raise Reject("unmodelled special method %s.%s" % (n.name, st.name))
                 elif st.decorator_list:
@@ -517,6 +730,8 @@ def translate():
     for f, (k, d) in funs.items():
         if k.startswith("dispatch"):
             info["funs"][f] = dict(d, style=k)
+    info["constants"] = {c: list(consts[c]) for c in sorted(used["constants"])}
+    info["builtins"] = sorted(used["builtins"])
     return rows, funs, create, info
 
 
@@ -526,6 +741,16 @@ def crosscheck(info):
     import generator.model as M
     if os.path.realpath(M.__file__) != os.path.realpath(os.path.join(REPO, "generator", "model.py")):
         raise Reject("generator.model imported from %s" % M.__file__)
+    for c, (kind, vals) in info.get("constants", {}).items():       # the tables that were unrolled are what the module holds
+        v = M.__dict__.get(c)
+        if type(v) is not {"tuple": tuple, "list": list}[kind] or list(v) != vals or not all(type(x) is str for x in v):
+            raise Reject("module constant %s is %r at run time, the source says %s %r" % (c, v, kind, vals))
+    import builtins
+    for b in info.get("builtins", []):
+        bd = M.__dict__.get("__builtins__")
+        bd = bd if isinstance(bd, dict) else vars(bd)
+        if b in M.__dict__ or bd.get(b) is not getattr(builtins, b):
+            raise Reject("builtin %s is re-bound in generator.model" % b)
     for cn, ci in info["classes"].items():
         cls = getattr(M, cn)
         fs = attrs.fields(cls)
